@@ -957,10 +957,25 @@ class Evaluator:
                         self.assign(st, t['dest'], a0[3][0], t.get('at'), b)
                         b = t['target']
                         continue
-                if args and t.get('target') is not None and args[0][0] == 'agg' and args[0][2] in ('Some', 'None', 'Ok', 'Err') \
-                        and args[0][1].endswith(('option::Option', 'result::Result')):
+                if name == 'std::iter::IntoIterator::into_iter' and fn and fn.get('args') and str(fn['args'][0]).startswith('&std::collections::VecDeque<'):
+                    name = 'std::collections::VecDeque::iter'  # `for x in &deque` is `for x in deque.iter()`
+                if name in ('future::FutureState::is_waiting', 'future::FutureState::is_done') and args and t.get('target') is not None:
+                    sv = strip_ref_value(args[0])
+                    if sv is not None and sv[0] in ('ref', 'rawptr') and sv[1] in st.mem:
+                        sv = st.mem[sv[1]]
+                    elif sv is not None and sv[0] == 'load' and sv[1] in st.mem:
+                        sv = st.mem[sv[1]]
+                    if sv is not None and sv[0] == 'agg' and sv[1].endswith('FutureState'):
+                        # the state was assigned earlier on this path (stream re-arm, then `if self.state.is_waiting()`)
+                        want_ = 'Waiting' if name.endswith('is_waiting') else 'Done'
+                        self.assign(st, t['dest'], ('const', 'bool', '1' if sv[2] == want_ else '0'), t.get('at'), b)
+                        b = t['target']
+                        continue
+                a0s = strip_ref_value(args[0]) if args else None
+                if args and t.get('target') is not None and a0s is not None and a0s[0] == 'agg' and a0s[2] in ('Some', 'None', 'Ok', 'Err') \
+                        and a0s[1].endswith(('option::Option', 'result::Result')) and (args[0][0] == 'agg' or name.split('::')[-1] in ('is_ok', 'is_err')):
                     # closure-free combinators on a value whose variant is known on this path
-                    x = args[0]
+                    x = a0s
                     pay = x[3][0] if x[3] else None
                     folded = None
                     if name == OPT + '::ok_or' and len(args) == 2:
